@@ -1,113 +1,23 @@
-(* Soundness of the reference equality test of two real algebraic numbers (gcd of the defining polynomials has a root in
-   the intersection of the isolating intervals, decided by the Sturm count of its square-free part) and hence the full
-   specification of the reference comparison rn_cmp, over every real closed field. *)
+(* Extended values (-inf, finite reference numbers, +inf): the reference comparison xv_cmp, over every real closed field.
+   (The comparison of two finite numbers is RefAlgFinal.rn_cmp_spec.) *)
 From Coq Require Import ZArith.
-From LP Require Import Scalar UPoly RootIso RefAlg Gcd.
+From LP Require Import Scalar UPoly RefAlg.
 Set Warnings "-notation-overridden,-ambiguous-paths".
 From mathcomp Require Import all_ssreflect all_algebra all_real_closed.
-From mathcomp Require Import ssrZ zify.
+From mathcomp Require Import ssrZ.
 Set Warnings "notation-overridden,ambiguous-paths".
-From LP Require Import UPolySpec ScalarProofs GcdSpec FactorProofs RootIsoProofs SturmItv RefAlgSpec RefAlgLoops RefAlgOps RefAlgValid.
-Import GRing.Theory Num.Theory Num.Def Order.TTheory.
+From LP Require Import UPolySpec RefAlgSpec RefAlgFinal.
+Import GRing.Theory Num.Theory Num.Def.
 Set Implicit Arguments.
 Unset Strict Implicit.
 Unset Printing Implicit Defensive.
 Local Open Scope ring_scope.
 
-Section Cmp.
+Section XCmp.
 Variable R : rcfType.
-Local Notation PR := (PR R).
-Local Notation QR := (QR R).
-Local Notation qr := (@qr R).
-Local Notation rn_denotes := (@rn_denotes R).
 
-Lemma q_max_spec (a b : Z * Z) : qpos a -> qpos b ->
-  [/\ qpos (q_max a b), qr a <= qr (q_max a b) & qr b <= qr (q_max a b)].
-Proof.
-move=> Ha Hb; rewrite /q_max (q_le_spec R Ha Hb).
-by case: (leP (qr a) (qr b)) => [le|/ltW le]; split.
-Qed.
-
-Lemma q_min_spec (a b : Z * Z) : qpos a -> qpos b ->
-  [/\ qpos (q_min a b), qr (q_min a b) <= qr a & qr (q_min a b) <= qr b].
-Proof.
-move=> Ha Hb; rewrite /q_min (q_le_spec R Ha Hb).
-by case: (leP (qr a) (qr b)) => [le|/ltW le]; split.
-Qed.
-
-(* a positive open count of a polynomial with simple real roots exhibits a root strictly inside *)
-Lemma count_open_gt0_root (f : seq Z) (l h : Z * Z) :
-  ~~ pis_zero f -> (forall x : R, root (PR f) x -> \mu_x (PR f) = 1%N) ->
-  qpos l -> qpos h -> qr l < qr h -> (0 < count_open f l h)%N ->
-  exists2 w : R, qr l < w < qr h & root (PR f) w.
-Proof.
-move=> f0 simple Hl Hh lh.
-have F0 : PR f != 0 by rewrite PR_eq0.
-have nd x : root (PR f) x -> ~~ root (PR f)^`() x.
-  move=> fx; have m0 := mu_deriv fx; rewrite (simple x fx) subnn in m0.
-  have d0 : (PR f)^`() != 0.
-    rewrite -size_poly_eq0 size_deriv; have := root_size_gt1 F0 fx.
-    by case: (size (PR f)) => [|[|n]].
-  by rewrite -mu_gt0 // m0.
-rewrite /count_open.
-have -> := count_roots_oc_fin_simple f0 nd (qpos_gt0 Hl) (qpos_gt0 Hh) lh.
-set s := [seq x <- _ | _].
-have ins x : x \in s = [&& qr l < x, x <= qr h & root (PR f) x].
-  by rewrite mem_filter in_rootsR // !qr_QR andbA.
-have us : uniq s by rewrite filter_uniq // uniq_roots.
-rewrite (psgn_q_neq0 R f Hh).
-case: ifP => [/eqP fh|/negbT fh].
-  (* f(h) = 0: at least two roots in (l, h], one of them is below h *)
-  case E: s us ins => [|x [|y t]] //= /andP[xy _] ins _.
-  have /and3P[lx xh fx] : [&& qr l < x, x <= qr h & root (PR f) x] by rewrite -ins !inE eqxx.
-  have /and3P[ly yh fy] : [&& qr l < y, y <= qr h & root (PR f) y] by rewrite -ins !inE eqxx orbT.
-  move: xy; rewrite inE negb_or => /andP[xy _].
-  have [xlt|xge] := ltP x (qr h); first by exists x => //; rewrite lx.
-  have xeq : x = qr h by apply/eqP; rewrite eq_le xh xge.
-  exists y => //; rewrite ly lt_neqAle yh andbT.
-  by apply: contra xy => /eqP yeq; rewrite xeq yeq.
-case E: s ins => [|x t] //= ins _.
-have /and3P[lx xh fx] : [&& qr l < x, x <= qr h & root (PR f) x] by rewrite -ins !inE eqxx.
-exists x => //; rewrite lx lt_neqAle xh andbT.
-by apply: contraNneq fh => xeq; rewrite -(qr_QR R h) -xeq -rootE.
-Qed.
-
-(* ---- the equality test is sound *)
-Theorem rn_eqb_sound (x y : rnum) (a b : R) :
-  rn_denotes x a -> rn_denotes y b -> rn_eqb x y = true -> a = b.
-Proof.
-case: x => [qa|p lo hi] Hx; case: y => [qb|p' lo' hi'] Hy; try exact: (rn_eqb_sound_rational Hx Hy).
-rewrite /rn_eqb.
-have [[Hlo Hhi] /andP[loa ahi] ra uniqa _] := Hx.
-have [[Hlo' Hhi'] /andP[lob bhi] rb uniqb _] := Hy.
-have [Hl l1 l2] := q_max_spec Hlo Hlo'; have [Hh h1 h2] := q_min_spec Hhi Hhi'.
-set l := q_max lo lo' in Hl l1 l2 *; set h := q_min hi hi' in Hh h1 h2 *.
-rewrite (q_lt_spec R Hl Hh); case: ifP => // lh.
-set g := pgcd p p'; case: ifP => // /Nat.ltb_ge dg cnt.
-have G0 : Poly g != 0.
-  by apply/eqP => E0; move: dg; rewrite pdeg_size E0 size_poly0 /=; lia.
-have [F0 rf simple] := psqfree_spec R G0.
-have f0 : ~~ pis_zero (psqfree g) by rewrite -(PR_eq0 R).
-have /Nat.ltb_lt/ssrnat.ltP cnt' := cnt.
-have [w /andP[lw wh] fw] := count_open_gt0_root f0 simple Hl Hh lh cnt'.
-have gw : root (PR g) w := rf w fw.
-have [dp dp'] := pgcd_dvd p p'.
-have pw : root (PR p) w by rewrite -dvdp_XsubCl (dvdp_trans _ (rdvd_PR R dp)) // dvdp_XsubCl.
-have pw' : root (PR p') w by rewrite -dvdp_XsubCl (dvdp_trans _ (rdvd_PR R dp')) // dvdp_XsubCl.
-have Ea : w = a.
-  by apply: uniqa => //; rewrite (le_lt_trans l1 lw) (lt_le_trans wh h1).
-have Eb : w = b.
-  by apply: uniqb => //; rewrite (le_lt_trans l2 lw) (lt_le_trans wh h2).
-by rewrite -Ea -Eb.
-Qed.
-
-(* ---- the comparison of two reference numbers: the sign of a - b *)
-Theorem rn_cmp_spec (fuel : nat) (x y : rnum) (a b : R) (s : Z) :
-  rn_denotes x a -> rn_denotes y b -> rn_cmp fuel x y = Some s -> zr s = sgr (a - b).
-Proof. by move=> Hx Hy; apply: rn_cmp_spec_cond => //; exact: rn_eqb_sound. Qed.
-
-(* extended values: -inf < every number < +inf *)
 Definition xv_denotes (v : xval) (a : R) : Prop := match v with XFin x => rn_denotes x a | _ => Logic.True end.
+
 Theorem xv_cmp_spec (fuel : nat) (u v : xval) (a b : R) (s : Z) :
   xv_denotes u a -> xv_denotes v b -> xv_cmp fuel u v = Some s ->
   match u, v with
@@ -121,4 +31,4 @@ case: u => [|x|]; case: v => [|y|] //=; try by move=> _ _ [<-].
 exact: rn_cmp_spec.
 Qed.
 
-End Cmp.
+End XCmp.
